@@ -8,7 +8,7 @@ for P in "$@"; do
   src=${ROUND_DIR:-/tmp/seed2}/$P/out
   [ -f $src/patch$N.diff ] || continue
   id=${P}${TAG:-r2}$( [ $N = 1 ] && echo a || echo b )
-  out=/verif/seeded/$id
+  out=${SEED_OUT:-/verif/seeded}/$id
   mkdir -p $out
   git checkout -- . ; rm -rf tests
   cp $src/patch$N.diff $out/patch.diff; cp $src/demo$N.rs $out/demo.rs; cp $src/README$N.md $out/README.md
